@@ -3,6 +3,7 @@
 package main
 
 import (
+	"runtime"
 	"fmt"
 	"math/big"
 	"strings"
@@ -224,6 +225,58 @@ func genC06(c *Ctx) {
 			ans := recAns(s.n, s.t, sh, idx)
 			c.Case("reconstruct-many-large-indices", recLine(s.n, s.t, sh, idx), ans)
 			c.Case("reconstruct-many-large-is-group-signature", "th.groupsig "+s.envLine(), ans)
+		}
+	}
+	// ---- consecutive reconstructions on one OS thread: signer lists that share a tail, a head, the set (other order),
+	// or only the length with the list before; each answer is compared with the model, so anything kept from one
+	// call to the next (coefficients, a table of inverses) shows as soon as the lists differ where the memory does not look
+	for _, nt := range [][2]int{{14, 8}, {20, 9}, {30, 12}, {40, 17}, {6, 2}} {
+		s := newThSetup(c, nt[0], nt[1])
+		k := s.t + 1
+		base := c.rng.Perm(s.n)
+		a := append([]int{}, base[:k]...)
+		lists := [][]int{a}
+		// same tail, other head (one, two, all-but-8 positions)
+		for _, h := range []int{1, 2, k - 8} {
+			if h < 1 || h >= k {
+				continue
+			}
+			b := append([]int{}, a...)
+			for j := 0; j < h && k+j < s.n; j++ {
+				b[j] = base[k+j]
+			}
+			lists = append(lists, b, a)
+		}
+		// same head, other tail
+		b := append([]int{}, a...)
+		b[k-1] = base[k]
+		lists = append(lists, b, a)
+		// same set, rotated and reversed
+		rot := append(append([]int{}, a[1:]...), a[0])
+		rev := make([]int, k)
+		for j := range a {
+			rev[j] = a[k-1-j]
+		}
+		lists = append(lists, rot, rev, a)
+		// a refused call in between (duplicate signer), then the list again
+		dup := append([]int{}, a...)
+		dup[k-1] = dup[0]
+		lists = append(lists, dup, a, b)
+		var lines, answers []string
+		func() {
+			runtime.LockOSThread()
+			defer runtime.UnlockOSThread()
+			for _, idx := range lists {
+				sh := make([]crypto.Signature, len(idx))
+				for j, i := range idx {
+					sh[j] = s.shares[i]
+				}
+				lines = append(lines, recLine(s.n, s.t, sh, idx))
+				answers = append(answers, recAns(s.n, s.t, sh, idx))
+			}
+		}()
+		for j := range lines {
+			c.Case("reconstruct-history", lines[j], answers[j])
 		}
 	}
 	// ---- the stateful object, sequential op sequences
